@@ -16,13 +16,15 @@ from core.common import close
 ID = "C02"
 LEAN_MODULES = ["AcnProofs.C02"]
 TIE_MODULES = ["AcnProofs.Lemmas.CodeTieBattery"]
-DRIVER = "drv_C02"          # the shared `Acn.Sim` model + the spec sums of the theorems evaluated on the model
+DRIVER = "drv_C02"          # the shared `Acn.Sim` model + the spec sums of the theorems evaluated on the model (+ two-run chain)
 REQUIRED_THEOREMS = [
     "Acn.C02.ledger_ideal", "Acn.C02.ledger_stepwise", "Acn.C02.ledger_continuous", "Acn.C02.ledger_zero_pilot",
     "Acn.C02.ev_charge_step", "Acn.C02.ev_energy_eq_battery_gain", "Acn.C02.ledger_invariant",
     "Acn.C02.sim_energy_eq_battery_gain", "Acn.C02.session_energy_all", "Acn.C02.session_energy_eq_sum",
     "Acn.C02.rate_zero_when_vacant", "Acn.C02.peak_eq_max", "Acn.C02.total_energy_eq_integral",
     "Acn.C02.session_energy_interval", "Acn.C02.session_energy_interval_complete", "Acn.C02.rates_zero_outside_interval", "Acn.C02.exec_sums_eq_spec", "Acn.C02.sim_rate_le_pilot",
+    "Acn.C02.rerun_session_energy", "Acn.C02.run_keeps_sessions", "Acn.C02.rerun_session_energy_interval_of_sessions",
+    "Acn.C02.rerun_session_energy_interval",
 ]
 BUDGET = {"quick": 900, "thorough": 6000, "search": 6000}
 TRUSTED = ["numpy: zeros / column assignment / sum(axis=0) / dot as used by simulator.py and analysis.py",
@@ -36,13 +38,34 @@ ASSUMPTIONS = ["the theorems and the model cover the plain ChargingNetwork; for 
                "station ids pairwise distinct (StationsNodup); the run has not raised (a raise inside update_pilots "
                "leaves earlier stations charged but nothing recorded — outside the property, covered by the correspondence)",
                "occupancy is what the network shows at post_charging_update (the model's occLog); under C01's Valid this is "
-               "arrival <= t < departure, which the oracle uses directly"]
+               "arrival <= t < departure, which the oracle uses directly",
+               "'station voltage' and 'period' are the values the station was REGISTERED with / the simulator was constructed with "
+               "(inputs of the scenario; the oracle never reads them back from the network after the run, and reports a network that "
+               "shows anything else); a scheduler may do what it likes with the objects the Interface hands it (active_sessions, "
+               "infrastructure_info, active_evs copies, getter results) and with the schedule arrays it returned earlier — it may not "
+               "reach into the simulator through private attributes or get_constraints() (live by design, C05)",
+               "EV objects may have been through an earlier simulation: the theorems hold for arbitrary initial EV state, and for EVs put "
+               "back with the public EV.reset() (model: lean/AcnModel/Rerun.lean — delivered energy and battery back, last charging rate "
+               "kept) they give the absolute equalities (rerun_session_energy, rerun_session_energy_interval)"]
 RULE = ("whole simulations through core.simcase: 1-6 stations of mixed EVSE classes with heterogeneous voltages "
         "(120/208/240/277.5 V), 0-25 sessions (half of all reuse back-to-back, simultaneous events), both battery classes "
         "(ideal, two-stage continuous/stepwise, noise 0/0.5/2 with the draws fed to both sides), capacity up to 100 kWh for "
         "requests <= 12 kWh, scripted multi-period schedules over random station subsets (vacant stations addressed, pilots "
         "above the battery's maximum power), real algorithms (oracle only), malformed stream (aborting runs: correspondence "
-        "only); thorough adds every layout of <= 3 sessions on <= 2 stations within horizon 5 with pilots from {0, 8, 40}; "
+        "only); periods 0.5/1/5/15/60 min and on a quarter of the non-exact scenarios one that does not divide the hour or exceeds it "
+        "(7, 8, 9, 11, 13, 25, 40, 45, 0.7, 3.5, 0.3, 61, 90, 120); "
+        "on ~45 % of the scenarios of EVERY stream the scheduler is a VANDAL: it returns exactly the prescribed schedule (the model "
+        "is unchanged) but, before and/or after deciding, scribbles in place over everything it was handed — the SessionInfo list, "
+        "fresh active_sessions(), every array of infrastructure_info() (voltages, phases, limits, matrix, pilot bounds; styles: "
+        "/1000 'kV', x1.25, roll, -777, 0, NaN), the deprecated active_evs copies (a what-if charge() on each, or charge / reset / attribute and "
+        "battery overwrites), the dicts and lists of the other getters — and optionally returns its schedule as numpy arrays which it "
+        "overwrites at its next invocation; the ledger is judged against the REGISTERED voltages of the case; "
+        "on ~20 % of the valid scripted scenarios the SAME EV objects go through EV.reset() and a second simulation (fresh network "
+        "and queue, the same or a late-starting scheduler, noise stream continued): both runs are judged by the oracle and compared "
+        "with the model (driver chains run 1 -> Rerun.resetEv -> run 2); after every run the analysis functions are evaluated twice "
+        "and the recorded matrices / peak / energies / voltages must be unchanged by that; "
+        "thorough adds every layout of <= 3 sessions on <= 2 stations within horizon 5 with pilots from {0, 8, 40} (periods 5/1/15/7, "
+        "every third with a vandal scheduler); "
         "a stochastic-network stream (real contrib StochasticNetwork, early_departure on/off, more simultaneous sessions than "
         "stations, small requests, seeded `random`; ORACLE ONLY, rows attributed to sessions by the occupancy at update_pilots); "
         "plus an exact stream (V=1000, period=60, dyadic pilots and batteries) checked with ZERO slack; "
@@ -103,6 +126,33 @@ def corpus():
                                  _s("q2", "S0", 1, 5, 4.0, _bi(16.0, 8.0, 4.0))],
                     "recomputes": [], "period": 60, "max_recompute": 1, "noise": [],
                     "sched": {"type": "scripted", "default": [["S0", [4.0]]], "script": []}})
+    # a scheduler that uses what it is handed as scratch space (here: converts "its" voltages to kV in place at every
+    # invocation) while stations registered at 208 V and 240 V charge an ideal and two two-stage batteries, back-to-back
+    # reuse of S0; same scenario with the other in-place habits
+    for style, when, keep in (("kv", "before", False), ("roll", "after", True), ("scale", "both", False), ("neg", "both", True)):
+        out.append({"stations": [_st(0, 208), _st(1, 240)], "constraint": {"limit": 64.0},
+                    "sessions": [_s("s0", "S0", 0, 12, 8.0, _bi(40.0, 10.0, 7.0)),
+                                 _s("s1", "S1", 3, 15, 6.0, _b2(20.0, 13.0, 6.6, 0.0, 0.8, "continuous")),
+                                 _s("s2", "S0", 12, 20, 3.0, _b2(30.0, 5.0, 6.6, 0.5, 0.8, "stepwise"))],
+                    "recomputes": [], "period": 5, "max_recompute": 1, "noise": [0.2, -0.4, 0.1],
+                    "sched": {"type": "scripted", "default": [["S0", [28.0]], ["S1", [25.0]]], "script": [{"t": 16, "sched": [["S0", [12.0, 6.0]]]}]},
+                    "vandal": {"style": style, "when": when, "keep": keep}})
+    # the same EV objects in a second simulation after EV.reset(): `late` leaves run 1 while charging at 30 A and waits
+    # at 0 A for five periods in run 2 (a scheduler that starts late); `early` is full before it leaves
+    out.append({"stations": [_st(0, 208), _st(1, 240)], "constraint": {"limit": 64.0},
+                "sessions": [_s("early", "S0", 0, 6, 3.0, _bi(10.0, 8.0, 7.0)), _s("late", "S1", 0, 9, 9.0, _bi(60.5, 5.0, 7.0)),
+                             _s("next", "S0", 6, 9, 2.0, _b2(20.0, 15.0, 6.6, 0.5, 0.8, "continuous"))],
+                "recomputes": [], "period": 5, "max_recompute": 1, "noise": [0.3, -0.1],
+                "sched": {"type": "scripted", "default": [["S0", [16.0]], ["S1", [30.0]]], "script": []},
+                "rerun": {"sched": {"type": "scripted", "default": [], "script": [{"t": t, "sched": [["S0", [16.0]], ["S1", [30.0]]]} for t in range(5, 10)]}}})
+    # a period that does not divide the hour (7 min: 60 // 7 = 8 periods "per hour" would book 7 % too much), and one
+    # longer than an hour; ideal batteries with room, reuse of S0
+    for period in (7, 90):
+        out.append({"stations": [_st(0, 208), _st(1, 240)], "constraint": None,
+                    "sessions": [_s("a", "S0", 0, 4, 1.5, _bi(40.0, 5.0, 7.0)), _s("b", "S1", 1, 5, 9.0, _bi(100.0, 1.0, 50.0)),
+                                 _s("c", "S0", 4, 6, 2.0, _bi(1.5, 0.0, 6.6))],
+                    "recomputes": [], "period": period, "max_recompute": 1, "noise": [],
+                    "sched": {"type": "scripted", "default": [["S0", [16.0]], ["S1", [32.0]]], "script": []}})
     out.extend(_exact_cases_fixed())
     return out
 
@@ -197,7 +247,7 @@ def exhaustive():
             p0, p1 = pil[k % 3], pil[(k // 3) % 3]
             script = [{"t": 2, "sched": [["S0", [p1, p0, 8.0]], ["S1", [40.0, 0.0, p0]]]}] if k % 4 == 0 else []
             out.append({"stations": [_st(0, [208, 120, 240][k % 3], kind), _st(1, [208, 277.5][k % 2], kind)], "constraint": None,
-                        "sessions": ss, "recomputes": [], "period": [5, 1, 15][(k // 2) % 3], "max_recompute": [1, None, 2][k % 3],
+                        "sessions": ss, "recomputes": [], "period": [5, 1, 15, 7][(k // 2) % 4], "max_recompute": [1, None, 2][k % 3],
                         "noise": [0.5, -0.25, 1.5], "exhaustive": True,
                         "sched": {"type": "scripted", "default": [["S0", [p0]], ["S1", [p1]]], "script": script}})
             k += 1
@@ -255,24 +305,65 @@ def I_gen_battery(rng):
     return S.gen_battery(rng)
 
 
+ODD_PERIODS = [7, 8, 9, 11, 13, 25, 40, 45, 0.7, 3.5, 0.3, 61, 90, 120]
+
+
+VANDAL_STYLES = ["kv", "scale", "roll", "neg", "zero", "nan"]
+
+
+def gen_vandal(rng):
+    """A scheduler that treats everything the interface hands it as its own scratch space (see `_vandal_hooks`)."""
+    return {"style": rng.choice(VANDAL_STYLES + ["kv", "roll"]), "when": rng.choice(["before", "after", "both"]),
+            "keep": rng.random() < 0.5}
+
+
+def gen_rerun(rng, case):
+    """Schedule of the SECOND simulation that re-uses the same EV objects after the public EV.reset(): the same
+    scheduler, or one that starts late (empty default, nothing before t0), so that sessions which ended run 1
+    while charging sit at 0 A in their first connected periods of run 2."""
+    sc = case["sched"]
+    if sc["type"] != "scripted" or rng.random() < 0.4:
+        return {"sched": copy.deepcopy(sc)}
+    arr = sorted({s["arrival"] for s in case["sessions"]}) or [0]
+    t0 = rng.choice(arr) + rng.choice([1, 1, 2])
+    return {"sched": {"type": "scripted", "default": [], "script": [copy.deepcopy(e) for e in sc.get("script", []) if e["t"] >= t0]}}
+
+
+def _decorate(rng, c):
+    """vandal scheduler on ~45 % of all scenarios (every stream), EV re-use on ~20 % of the plain scripted ones"""
+    if rng.random() < 0.45:
+        c["vandal"] = gen_vandal(rng)
+    if not c.get("exact") and rng.random() < 0.25:
+        c["period"] = rng.choice(ODD_PERIODS)       # minutes that do not divide the hour (and periods beyond one hour)
+    if (c.get("network") != "stochastic" and not c.get("malformed") and S.is_modelled(c) and c["sessions"]
+            and S.is_valid_layout(c) and rng.random() < 0.2):
+        c["rerun"] = gen_rerun(rng, c)
+    return c
+
+
 def generate(rng, n, tier):
     out = []
     if tier == "thorough":
         out.extend(exhaustive())
+        for k, c in enumerate(out):         # the small-scope layouts rotate through the vandal schedulers as well
+            if k % 3 == 0:
+                c["vandal"] = {"style": VANDAL_STYLES[(k // 3) % len(VANDAL_STYLES)], "when": ["before", "after", "both"][(k // 18) % 3],
+                               "keep": bool((k // 3) % 2)}
     for i in range(n):
         r = i % 12
         if r in (0, 1):
-            out.append(gen_exact(rng))
+            c = gen_exact(rng)
         elif r in (2, 7, 8):
-            out.append(gen_stochastic(rng))
+            c = gen_stochastic(rng)
         elif r == 3:
-            out.append(S.gen_case(rng, malformed=True))
+            c = S.gen_case(rng, malformed=True)
         elif r == 4:
-            out.append(S.gen_case(rng, real_algos=True, max_sessions=12))
+            c = S.gen_case(rng, real_algos=True, max_sessions=12)
         elif r in (5, 6):
-            out.append(S.gen_case(rng))
+            c = S.gen_case(rng)
         else:
-            out.append(gen_ledger(rng))
+            c = gen_ledger(rng)
+        out.append(_decorate(rng, c))
     return out
 
 
@@ -316,24 +407,206 @@ def _stoch_cls(early):
     return _STOCH_CLS[early]
 
 
-def run_impl(case):
-    from acnportal import acnsim
-    stoch = case.get("network") == "stochastic"
-    with S.noise_stream(case.get("noise", [])) as ns:
-        if stoch:
-            import random as _random
-            st0 = _random.getstate()
-            _random.seed(case["rand_seed"])
-            try:
-                sim, ctx = S.build_sim(case, S.Hooks(network_cls=_stoch_cls(bool(case.get("early_departure")))))
-                err = S.run_sim(sim)
-            finally:
-                _random.setstate(st0)
+# ---- the vandal scheduler: everything the Interface HANDS to a scheduler is the scheduler's own scratch space
+
+
+def _scribble(a, style):
+    """overwrite a numpy array IN PLACE (the ways a scheduler plausibly does: unit conversion, rescaling,
+    re-ordering, plain overwriting)"""
+    if not isinstance(a, np.ndarray) or a.ndim == 0:
+        return
+    try:
+        if a.dtype == bool:
+            a[...] = ~a
+        elif a.dtype.kind == "f":
+            if style == "kv":
+                a /= 1000.0
+            elif style == "scale":
+                a *= 1.25
+            elif style == "roll":
+                a[...] = np.roll(a, 1, axis=-1)
+            elif style == "zero":
+                a[...] = 0.0
+            elif style == "nan":
+                a[...] = np.nan
+            else:
+                a[...] = -777.0
+        elif a.dtype.kind in "iu":
+            a[...] = 0 if style == "zero" else -7
         else:
-            sim, ctx = S.build_sim(case)
-            err = S.run_sim(sim)
-        obs = S.observe(sim, ctx, err)
-        obs["noise_draws"] = ns["k"]
+            a[...] = None
+    except Exception:  # noqa: BLE001  (read-only array)
+        pass
+
+
+def _wreck(x, style, depth=0):
+    """mutate an object graph in place: arrays scribbled, lists / dicts / sets emptied after their members were
+    wrecked, attributes of plain objects overwritten"""
+    if depth > 3 or x is None or isinstance(x, (str, bytes, int, float, bool, complex, np.generic)):
+        return
+    if isinstance(x, np.ndarray):
+        _scribble(x, style)
+        return
+    try:
+        if isinstance(x, (list, tuple)):
+            for y in list(x):
+                _wreck(y, style, depth + 1)
+            if isinstance(x, list):
+                x.append("junk")
+                x.reverse()
+                del x[:]
+        elif isinstance(x, dict):
+            for y in list(x.values()):
+                _wreck(y, style, depth + 1)
+            x.clear()
+        elif isinstance(x, set):
+            x.clear()
+        elif hasattr(x, "__dict__"):
+            for name, y in list(vars(x).items()):
+                _wreck(y, style, depth + 1)
+            for name, y in list(vars(x).items()):
+                try:
+                    if isinstance(y, np.ndarray):
+                        setattr(x, name, np.array([]))
+                    elif isinstance(y, bool):
+                        setattr(x, name, not y)
+                    elif isinstance(y, (int, np.integer)):
+                        setattr(x, name, 10 ** 6 if "depart" in name else -5)
+                    elif isinstance(y, (float, np.floating)):
+                        setattr(x, name, 1e9)
+                    elif isinstance(y, str):
+                        setattr(x, name, "ZZ-" + y)
+                except Exception:  # noqa: BLE001
+                    pass
+    except Exception:  # noqa: BLE001
+        pass
+
+
+def _wreck_evs(evs, style):
+    """the deprecated `active_evs` copies: charged (styles kv / scale / roll: only that), reset, every attribute (and the
+    battery's) overwritten"""
+    orig = np.random.normal
+    np.random.normal = lambda *a, **k: 0.0      # the vandal's own charge() calls must not eat the scenario's noise draws
+    try:
+        for e in list(evs):
+            try:
+                if style in ("kv", "scale", "roll"):
+                    # the gentle habit: a what-if on its own copies ("how much would this EV take in the next period?")
+                    e.charge(8.0, 208.0, 5.0)
+                    continue
+                e.charge(32.0, 240.0, 5.0)
+                e.reset()
+                e.charge(16.0, 208.0, 60.0)
+                e._energy_delivered = 1e9
+                e._current_charging_rate = -3.0 if style != "zero" else 0.0
+                e.arrival = -1
+                e.departure = 10 ** 6
+                e.estimated_departure = -2
+                e.update_station_id("ZZ")
+                e._session_id = "vandal"
+                e._requested_energy = 0.0
+                b = e._battery
+                b._current_charge = 0.0
+                b._init_charge = 123.0
+                b._capacity = 1.0
+                b._max_power = 1e6
+                b._current_charging_power = 55.0
+            except Exception:  # noqa: BLE001
+                pass
+    finally:
+        np.random.normal = orig
+    try:
+        evs.append("junk")
+        del evs[:]
+    except Exception:  # noqa: BLE001
+        pass
+
+
+def _wreck_everything(iface, handed, style):
+    """handed: the objects the simulator passed in (or None: ask the interface for fresh ones only)"""
+    if handed is not None:
+        _wreck(handed, style)
+    for get in (iface.active_sessions, iface.infrastructure_info):
+        try:
+            _wreck(get(), style)
+        except Exception:  # noqa: BLE001
+            pass
+    try:
+        with warnings.catch_warnings():
+            warnings.simplefilter("ignore")
+            evs = iface.active_evs
+        _wreck_evs(evs, style)
+    except Exception:  # noqa: BLE001
+        pass
+    getters = [lambda: iface.last_applied_pilot_signals, lambda: iface.last_actual_charging_rate,
+               lambda: iface.get_prices(3), lambda: iface.get_prices(2, 0)]
+    try:
+        for st in list(iface.infrastructure_info().station_ids):
+            getters.append(lambda st=st: iface.allowable_pilot_signals(st)[1])
+    except Exception:  # noqa: BLE001
+        pass
+    for g in getters:
+        try:
+            _wreck(g(), style)
+        except Exception:  # noqa: BLE001
+            pass
+
+
+def _vandal_hooks(case, network_cls=None):
+    """Hooks of a scheduler that returns exactly the schedule the scenario prescribes (so the model needs to know
+    nothing about it) but scribbles over every array / object it was handed: the SessionInfo list passed to
+    schedule(), fresh active_sessions(), infrastructure_info() (every array, in place: voltages, phases, limits,
+    matrix, pilot bounds), the deprecated active_evs copies (charge / reset / attribute overwrites), the dicts and
+    lists of the other getters.  `keep`: it returns its schedule as numpy arrays, keeps them and overwrites them
+    at its next invocation.  Not touched: get_constraints() (live by design), anything private of the interface."""
+    v = case.get("vandal")
+    if not v:
+        return S.Hooks(network_cls=network_cls)
+    style, when, keep = v.get("style", "neg"), v.get("when", "both"), bool(v.get("keep"))
+    real = not S.is_modelled(case)         # a real algorithm reads `sessions` after the before-hook: leave those alone
+    kept = []
+
+    def before(algo, iface, sessions):
+        for d in kept:
+            _wreck(d, "neg")
+        del kept[:]
+        if when in ("before", "both"):
+            _wreck_everything(iface, None if real else sessions, style)
+
+    def after(algo, iface, sessions, schedule):
+        if when in ("after", "both"):
+            _wreck_everything(iface, sessions, style)
+        if keep and isinstance(schedule, dict) and schedule and all(isinstance(x, list) for x in schedule.values()) \
+                and len({len(x) for x in schedule.values()}) == 1:
+            out = {k: np.array(x, dtype=float) for k, x in schedule.items()}
+            kept.append(out)
+            return out
+        return None
+
+    return S.Hooks(before=before, after=after, network_cls=network_cls)
+
+
+def _build_again(case, sched, evs, hooks):
+    """a second Simulator (fresh network, EVSEs, queue, scheduler) around the SAME EV objects"""
+    from acnportal.acnsim.simulator import Simulator
+    from acnportal.acnsim.network.current import Current
+    from acnportal.acnsim.events import EventQueue, PluginEvent, RecomputeEvent
+    net = (hooks.network_cls or S.SnapshotNetwork)()
+    for st in case["stations"]:
+        net.register_evse(I.make_evse(st["kind"], st["id"]), I.num(st["V"]), I.num(st.get("phase", 0)))
+    con = case.get("constraint")
+    if con:
+        net.add_constraint(Current([st["id"] for st in case["stations"]]), I.num(con["limit"]), name="agg")
+    events = [PluginEvent(ev.arrival, ev) for ev in evs]
+    events += [RecomputeEvent(int(r)) for r in case.get("recomputes", [])]
+    algo = S.make_scheduler(dict(case, sched=sched), hooks)
+    sim = Simulator(net, algo, EventQueue(events), S.START, period=I.num(case["period"]), verbose=False)
+    return sim, {"network": net, "scheduler": algo, "evs": evs, "hooks": hooks}
+
+
+def _ledger_obs(sim, obs, stoch):
+    """the ledger's observables of one finished run, added to the canonical observation `obs`"""
+    from acnportal import acnsim
     net = sim.network
     if stoch:
         obs["stoch"] = {"swaps": int(net.swaps), "early_unplug": int(net.early_unplug), "never_charged": int(net.never_charged),
@@ -348,21 +621,101 @@ def run_impl(case):
                      "delivered": float(ev.energy_delivered), "charge": bj["charge"], "init": bj["init"]})
     obs["hist"] = hist
     obs["period"] = float(sim.period)
-    with warnings.catch_warnings():
-        warnings.simplefilter("ignore")
-        obs["total_energy"] = float(acnsim.total_energy_delivered(sim))
-        obs["agg_power"] = [float(x) for x in np.asarray(acnsim.aggregate_power(sim)).ravel()]
-        obs["agg_current"] = [float(x) for x in np.asarray(acnsim.aggregate_current(sim)).ravel()]
+
+    def analysis():
+        with warnings.catch_warnings():
+            warnings.simplefilter("ignore")
+            return {"total_energy": float(acnsim.total_energy_delivered(sim)),
+                    "agg_power": [float(x) for x in np.asarray(acnsim.aggregate_power(sim)).ravel()],
+                    "agg_current": [float(x) for x in np.asarray(acnsim.aggregate_current(sim)).ravel()]}
+
+    first = analysis()
+    obs.update(first)
+    # reading the record must not change it: the analysis functions asked again give the same answers, and the
+    # recorded matrices / peak / per-EV energies are what they were before anything was computed from them
+    changed = [k for k, x in analysis().items() if _differs(x, first[k])]
+    if _differs([[float(x) for x in row] for row in sim.charging_rates], obs["rates"]):
+        changed.append("charging_rates")
+    if _differs([[float(x) for x in row] for row in sim.pilot_signals], obs["pilots"]):
+        changed.append("pilot_signals")
+    if _differs(float(sim.peak), obs["peak"]):
+        changed.append("peak")
+    if _differs([float(ev.energy_delivered) for ev in sim.ev_history.values()], [h["delivered"] for h in hist]):
+        changed.append("energy_delivered")
+    if _differs([float(net.voltages[s]) for s in net.station_ids], obs["voltages"]):
+        changed.append("voltages")
+    obs["changed_by_analysis"] = changed
+    return obs
+
+
+def _differs(a, b):
+    """exact comparison of nested lists of doubles, NaN equal to NaN"""
+    if isinstance(a, list) or isinstance(b, list):
+        return not (isinstance(a, list) and isinstance(b, list) and len(a) == len(b)) or any(_differs(x, y) for x, y in zip(a, b))
+    return not (a == b or (a != a and b != b))
+
+
+def run_impl(case):
+    stoch = case.get("network") == "stochastic"
+    hooks = _vandal_hooks(case, _stoch_cls(bool(case.get("early_departure"))) if stoch else None)
+    with S.noise_stream(case.get("noise", [])) as ns:
+        if stoch:
+            import random as _random
+            st0 = _random.getstate()
+            _random.seed(case["rand_seed"])
+            try:
+                sim, ctx = S.build_sim(case, hooks)
+                err = S.run_sim(sim)
+            finally:
+                _random.setstate(st0)
+        else:
+            sim, ctx = S.build_sim(case, hooks)
+            err = S.run_sim(sim)
+        obs = S.observe(sim, ctx, err)
+        obs["noise_draws"] = ns["k"]
+        _ledger_obs(sim, obs, stoch)
+        if case.get("rerun") and not stoch and err is None:
+            # the same EV objects, put back to their initial state through the public EV.reset(), go through a
+            # second simulation (fresh network / queue / scheduler): `obs` describes run 2, obs["run1"] run 1
+            k1 = ns["k"]
+            for ev in ctx["evs"]:
+                ev.reset()
+            hooks2 = _vandal_hooks(case)
+            sim2, ctx2 = _build_again(case, case["rerun"]["sched"], ctx["evs"], hooks2)
+            err2 = S.run_sim(sim2)
+            obs2 = S.observe(sim2, ctx2, err2)
+            obs2["noise_draws"] = ns["k"] - k1
+            _ledger_obs(sim2, obs2, False)
+            obs2["run1"] = obs
+            obs = obs2
     return obs
 
 
 def model_request(case):
     if case.get("network") == "stochastic":
         return None             # oracle only: the Sim model composes the run loop with a plain ChargingNetwork
-    return S.model_request(case)
+    req = S.model_request(case)
+    if req is not None and case.get("rerun"):
+        # two simulations over the same EV objects: the driver runs the first, applies the model of EV.reset()
+        # (lean/AcnModel/Rerun.lean: energy and battery back, the last charging rate stays), continues the noise
+        # stream and runs the second one with the second scheduler
+        req["rerun"] = {"sched": S.model_request(dict(case, sched=case["rerun"]["sched"]))["sched"]}
+    return req
 
 
 def compare(case, obs, model):
+    if ("run1" in obs) != ("run1" in model):
+        return ["two runs over the same EV objects: only one side completed the first run "
+                f"(impl err {obs.get('run1', obs).get('err')!r}, model err {model.get('run1', model).get('err')!r})"]
+    if "run1" in obs:
+        d1 = ["run 1: " + d for d in _compare_run(case, obs["run1"], model["run1"])]
+        d2 = ["run 2 (same EV objects after EV.reset()): " + d
+              for d in _compare_run(dict(case, sched=case["rerun"]["sched"]), obs, model)]
+        return (d1 + d2)[:12]
+    return _compare_run(case, obs, model)
+
+
+def _compare_run(case, obs, model):
     # rates matrix, per-EV delivered / rate / battery charge and power, peak, occupancy log, pilots, events, error class
     diffs = S.compare(case, obs, model)
     # the theorems' equalities, executed on the MODEL's final state (spec sums of LedgerExec.lean)
@@ -401,6 +754,17 @@ def _eq(a, b, exact):
 
 
 def oracle(case, obs):
+    fails = []
+    if "run1" in obs:
+        for f in _oracle_run(case, obs["run1"]):
+            fails.append({"kind": f["kind"], "detail": "run 1: " + f["detail"]})
+        for f in _oracle_run(case, obs):
+            fails.append({"kind": f["kind"], "detail": "run 2 (same EV objects after EV.reset()): " + f["detail"]})
+        return fails
+    return _oracle_run(case, obs)
+
+
+def _oracle_run(case, obs):
     if obs.get("err") is not None:
         return []                       # the run raised: partial period, outside the property
     stoch = case.get("network") == "stochastic"
@@ -410,8 +774,19 @@ def oracle(case, obs):
     fails = []
     rates = obs["rates"]
     sts = obs["station_ids"]
-    V = obs["voltages"]
-    T = obs["period"]
+    # "station voltage" is the voltage the station was REGISTERED with (an input of the scenario) - not whatever the
+    # network reports once the run is over; the two must of course be the same thing
+    reg = {st["id"]: float(I.num(st["V"])) for st in case["stations"]}
+    V = [reg.get(s, float("nan")) for s in sts]
+    for s, v_reg, v_now in zip(sts, V, obs["voltages"]):
+        if not (v_reg == v_now):
+            fails.append({"kind": "station_voltage", "detail": f"station {s} was registered at {v_reg!r} V; after the run the network reports {v_now!r} V"})
+    if obs.get("changed_by_analysis"):
+        fails.append({"kind": "record_changed_by_reading", "detail": "computing total_energy_delivered / aggregate_power / aggregate_current "
+                      f"(twice) changed: {obs['changed_by_analysis']}"})
+    T = float(I.num(case["period"]))
+    if not (T == obs["period"]):
+        fails.append({"kind": "period_changed", "detail": f"simulator constructed with period {T!r}, reports {obs['period']!r} after the run"})
     width = len(rates[0]) if rates else 0
     hist = obs["hist"]
     if stoch:
@@ -526,6 +901,31 @@ def _charged(obs):
     return sum(1 for h in obs.get("hist", []) if h["delivered"] > 0)
 
 
+def _charged_after_invocation(obs):
+    """some energy flowed in or after a period in which the scheduler ran"""
+    inv = obs.get("invoked", [])
+    if not inv:
+        return False
+    t0 = min(inv)
+    return any(r != 0 for row in obs.get("rates", []) for r in row[t0:])
+
+
+def _stale_rate_then_zero_pilot(case, obs):
+    """a re-used EV whose last period of run 1 had a non-zero rate is held at 0 A in its first period of run 2"""
+    r1 = obs["run1"]
+    sts = obs["station_ids"]
+    for s in case["sessions"]:
+        if s["station"] not in sts:
+            continue
+        i, a, d = sts.index(s["station"]), s["arrival"], s["departure"]
+        try:
+            if r1["rates"][i][d - 1] != 0 and obs["pilots"][i][a] == 0:
+                return True
+        except IndexError:
+            pass
+    return False
+
+
 def nontrivial(case, obs):
     if case.get("network") == "stochastic":
         st = obs.get("stoch", {})
@@ -544,6 +944,18 @@ def features(case, obs):
          "back_to_back=" + ("0" if _b2b(case) == 0 else "1+")]
     if case.get("exhaustive"):
         f.append("exhaustive_small_scope")
+    v = case.get("vandal")
+    f.append("scheduler=" + ("well-behaved" if not v else f"vandal/{v['style']}"))
+    if v:
+        f.append(f"vandal_when={v['when']}" + ("/keeps_its_schedule_arrays" if v.get("keep") else ""))
+        n_inv = len(obs.get("invoked", [])) + len(obs.get("run1", {}).get("invoked", []))
+        f.append("vandal_invocations=" + ("0" if n_inv == 0 else "1" if n_inv == 1 else "2-5" if n_inv <= 5 else "6+"))
+        if obs.get("err") is None and len(set(obs.get("voltages", []))) > 1 and _charged_after_invocation(obs):
+            f.append("vandal_then_charging_at_heterogeneous_voltages")
+    if case.get("rerun"):
+        f.append("ev_objects_reused_after_reset" + ("" if "run1" in obs else "/run1_raised"))
+        if "run1" in obs and _stale_rate_then_zero_pilot(case, obs):
+            f.append("reused_ev_last_rate_nonzero_then_0A_pilot")
     if case.get("network") == "stochastic":
         st = obs.get("stoch", {})
         f.append("network=stochastic/early_departure=" + str(bool(case.get("early_departure"))))
